@@ -165,6 +165,8 @@ def run(ctx: Ctx) -> None:
     N = ctx.n(300, 8000)
     rng = ctx.rng
     for i in range(N):
+        if ctx.out_of_time():
+            break
         if rng.random() < 0.5:
             prog = gen_swappy(ctx, rng)
             top = "c1"
